@@ -44,6 +44,8 @@ def stub(name, args, like, real=None):
         if real is None:
             raise RuntimeError(f"stub {name} has no real implementation for spy mode")
         out = real(*args) if isinstance(args, tuple) else real(args)
+        if any(isinstance(x, jax.core.Tracer) for x in jax.tree_util.tree_leaves((args, out))):
+            return out          # called under a jax transformation (e.g. inside lax.cond): cannot be recorded
         SPY["log"].append((name, [np.asarray(x) for x in jax.tree_util.tree_leaves(args)],
                            [np.asarray(x) for x in jax.tree_util.tree_leaves(out)]))
         return out
